@@ -190,6 +190,26 @@ func runC13(c *Ctx) {
 
 	ruleResultOnEveryExit(c) // "never deadlocks": the command loop blocks on the delivery result
 
+	if f := c.A.Func("(*statusCollector).fillRemaining"); f != nil {
+		// every channel is visited: the loop over the recipient channels is never left from inside its body
+		nOuter := 0
+		for _, li := range findLoops(f) {
+			if li.body == nil || li.header.Comment != "rangeiter.loop" {
+				continue
+			}
+			nOuter++
+			region := reachableFrom(li.body, func(from, to *ssa.BasicBlock) bool { return to == li.header })
+			esc := ""
+			for b := range region {
+				if !li.blocks[b] {
+					esc = c.P.Pos(firstPos(b))
+				}
+			}
+			R.Ob("(*statusCollector).fillRemaining/visits every recipient channel", c.P.Pos(firstPos(li.header)), esc == "", "the loop over the recipient channels can be left from inside its body (towards "+esc+"): recipients without a status stay unfilled and the emission loop blocks forever")
+		}
+		R.Ob("(*statusCollector).fillRemaining/ranges over the channels", c.P.Pos(f.Pos()), nOuter >= 1, "no range over the status map found")
+	}
+
 	R.Rule("R-status-nonblocking", "E1", "SetStatus and fillRemaining send only inside non-blocking selects on the recipient's channel; misuse panics instead of blocking the backend", 4)
 	if f := c.A.Func("(*statusCollector).SetStatus"); f != nil {
 		nSel, nSend := 0, 0
